@@ -237,6 +237,11 @@ def generate(tier):
             add(hosu=hosu, init=init, k2=k2, sia=sia, ruled=ruled, law=law, stoich=st, fdef=int(law == "fcall"))
         for names, hosu, init, k2, law in it.product(names_all[1:], (0, 1), ("conc", "amount"), K2, LAWS):
             add(names=names, hosu=hosu, init=init, k2=k2, law=law, fdef=int(law == "fcall"))
+        if tier == "thorough":  # every identifier variant on the whole description product, with and without chains
+            for names, hosu, init, k2, sia, ruled, law, st in it.product(names_all[1:], (0, 1), ("conc", "amount"), K2, (0, 1), (0, 1), LAWS, STOICH):
+                add(names=names, hosu=hosu, init=init, k2=k2, sia=sia, ruled=ruled, law=law, stoich=st, fdef=int(law == "fcall"))
+            for chain, hosu, init, k2, sia, ruled, law, st in it.product(("fwd", "rev"), (0, 1), ("conc", "amount"), K2, (0, 1), (0, 1), LAWS, STOICH):
+                add(iachain=chain, hosu=hosu, init=init, k2=k2, sia=sia, ruled=ruled, law=law, stoich=st, fdef=int(law == "fcall"))
     else:
         for hosu, init, law, st in it.product((0, 1), ("conc", "amount"), LAWS, STOICH):
             add(hosu=hosu, init=init, law=law, stoich=st, fdef=int(law == "fcall"))
